@@ -5,6 +5,8 @@ use serde_json::{json, Value};
 
 mod c07;
 mod c08;
+mod c18;
+mod memclient;
 mod c20;
 
 fn main() {
@@ -34,6 +36,7 @@ fn run(name: &str, args: &Value) -> Value {
         "c07_http" => c07::http(args),
         "c20_script" => c20::script(args),
         "c20_tuple" => c20::tuple(args),
+        "c18_lifecycle" => c18::lifecycle(args),
         "c08_append" => c08::append(args),
         "c08_response" => c08::response(args),
         other => {
